@@ -253,6 +253,21 @@ def replay_case(task):
     return base.generic_replay_case(FAMILIES, task)
 
 
+def _keys_comparable(v):
+    from vf.props.c02 import Box
+    if isinstance(v, dict):
+        try:
+            sorted(v.keys())
+        except TypeError:
+            return False
+        return all(_keys_comparable(k) and _keys_comparable(x) for k, x in v.items())
+    if isinstance(v, (list, tuple, set, frozenset)):
+        return all(_keys_comparable(x) for x in v)
+    if isinstance(v, Box):
+        return _keys_comparable(v.x) and _keys_comparable(v.tag)
+    return True
+
+
 def cases(tier, seed):
     out = []
     for i, (name, spec) in enumerate(TREES):
@@ -270,6 +285,10 @@ def cases(tier, seed):
             out.append({'name': 'None==huge:%s:default-lowered-to-%d' % (name, 1 + i % 3), 'family': 'none',
                         'params': {'spec': spec, 'slice': 'page', 'lowered_default': 1 + i % 3}, 'budget': 60.0})
         optsets = [{'depth': 30}, {'sort_dict_keys': True, 'indent': 2}, {'depth': 30, 'sort_dict_keys': True}]
+        if not _keys_comparable(trees.build(spec)):
+            # sorting mutually incomparable keys orders them by id() of temporaries:
+            # not deterministic across paths (DESIGN.md 6)
+            optsets = [o for o in optsets if not o.get('sort_dict_keys')] + [{'depth': 30, 'indent': 2}]
         if tier == 'thorough' or i % 3 == 1:
             o = optsets[(i // 3) % len(optsets)] if tier == 'quick' else None
             for o in ([o] if o else optsets):
